@@ -542,12 +542,17 @@ def oracle_c12(im, ops=None):
     for i, r in steps(im):
         if r["kind"] == "recv":
             wn = wake_node(r)
-            if wn is not None and not any(not ok for _, ok in r["writes"]):
-                lines = [w for w, _ in r["writes"]]
+            if wn is not None:
+                faulty = any(not ok for _, ok in r["writes"])
+                lines = [w for w, ok in r["writes"] if ok]
                 for key in [k for k in held if k[0] == wn]:
-                    if enc(held[key]) not in lines:
+                    if enc(held[key]) in lines:
+                        held.pop(key)
+                    elif not faulty:
                         fs.append(F("C12:held-not-delivered", f"send of {held[key]} was held for sleeping node {wn}; the node woke ({r['line']!r}) and the command was not written (writes {lines})", i))
-                    held.pop(key)
+                        held.pop(key)
+                    # else: a write of this wake failed, the command must still be held
+                    # and go out at a later wake
             continue
         if r["kind"] != "send":
             continue
